@@ -300,7 +300,10 @@ def extract(repo):
     var, lst = _matches_list(body, f"{rel}: tag_name_bytes_from_str")
     c["tagNameReject"] = lst
     flat = re.sub(r"\s+", " ", body)
-    if not re.search(r"match name\.as_bytes\(\)\.first\(\) \{ Some\((\w+)\) if !\1\.is_ascii_alphabetic\(\) => Err\(TagNameError::InvalidFirstCharacter\)", flat):
+    # the `None` arm is disjoint from the two `Some` arms, so only their relative order matters
+    m_first = re.search(r"Some\((\w+)\) if !\1\.is_ascii_alphabetic\(\) => Err\(TagNameError::InvalidFirstCharacter\)", flat)
+    m_rest = re.search(r"Some\(_\) =>", flat)
+    if "match name.as_bytes().first() {" not in flat or not m_first or not m_rest or m_first.start() > m_rest.start():
         raise TranslateError(f"{rel}: tag_name_bytes_from_str: first-character rule `!ch.is_ascii_alphabetic()` not found")
     if not re.search(r"None => Err\(TagNameError::Empty\)", flat):
         raise TranslateError(f"{rel}: tag_name_bytes_from_str: `None => Err(Empty)` not found")
